@@ -17,7 +17,7 @@ import (
 
 func init() {
 	Register(&World{Name: "xsyncobj", Episodes: true, Props: []string{"C18"}, Concurrent: true, MaxSteps: 6000, Run: xsyncobjWorld})
-	ExpectedProbes["xsyncobj"] = []string{"watchable-value-before-first-set", "watchable-value-racing-first-set", "watchable-observer-woken", "future-wait-before-fill", "future-wait-after-fill", "future-waitcontext-cancelled", "lazy-concurrent-first-calls", "map-absent-key", "map-nil-interface-value", "porcupine-checked"}
+	ExpectedProbes["xsyncobj"] = []string{"watchable-value-before-first-set", "watchable-value-racing-first-set", "watchable-observer-woken", "future-wait-before-fill", "future-wait-after-fill", "future-waitcontext-cancelled", "future-later-waiter-dead-context", "lazy-concurrent-first-calls", "map-absent-key", "map-nil-interface-value", "porcupine-checked"}
 }
 
 func xsyncobjWorld(r *R) {
@@ -196,6 +196,7 @@ func futureScenario(r *R) {
 	doFill := r.Choose(6, "fill") != 5
 	const val = 4242
 	filled := false
+	fillReturned := false
 	var cancellable []*Ctx
 	for i := 0; i < nw; i++ {
 		i := i
@@ -232,8 +233,18 @@ func futureScenario(r *R) {
 				return
 			}
 			c := cs.Begin(fmt.Sprintf("waiter%d", i), "WaitContext", i, ctx)
+			laterWaiter := fillReturned
+			if laterWaiter && ctx.Dead() {
+				r.Probe("future-later-waiter-dead-context")
+			}
 			v, err := f.WaitContext(ctx.C)
 			cs.End(c, v, err == nil, err)
+			if err != nil && laterWaiter {
+				// "delivers the single value it was filled with to all earlier and later waiters";
+				// WaitContext: "returns immediately if f is already filled" - whatever its context
+				r.Violate("C18", "future/later-waiter-not-served", "Fill had returned before this WaitContext was called, yet it returned (%d, %v) instead of the value", v, err)
+				return
+			}
 			if err != nil {
 				if !ctx.Dead() || err != ctx.C.Err() {
 					r.Violate("C18", "future/wrong-error", "WaitContext returned %v although its context's error is %v", err, ctx.C.Err())
@@ -259,6 +270,7 @@ func futureScenario(r *R) {
 			filled = true
 			f.Fill(val)
 			cs.End(c, val, true, nil)
+			fillReturned = true
 		})
 	}
 	if len(cancellable) > 0 {
